@@ -724,6 +724,11 @@ pub fn generate(thorough: bool, seed: u64, out: &mut dyn Write) {
         let s: Vec<u8> = (0..len).map(|_| rng.range(0x20, 0x7E) as u8).collect();
         writeln!(out, "shcrc {}", hex(&s)).unwrap();
     }
+    // the string literals of the current source (see `c12::source_literals`): a key name the code
+    // treats specially has to be written down there
+    for lit in crate::c12::source_literals(&["src/shpk.rs", "src/crc.rs", "src/mtrl.rs"]) {
+        writeln!(out, "shcrc {}", hex(&lit)).unwrap();
+    }
     // ---- shader packages
     let n = if thorough { 150_000 } else { 500 };
     for i in 0..n {
